@@ -1,26 +1,61 @@
 # Snappy compressor (C09 bounds, C10 emitted format) and gzip/zstd wrappers (C08/C09)
 SC9 = dict(overlays=['contracts/snappy_comp.ovl'], harness='harness/C09/snappy.c')
+OWNMEM = 'harness/C09/snappy.c (CQV_OWN_MEM): memcpy/memset contracts as in stubs/mem_stubs.c, whole-object memset havocs the object in one step'
 SC10 = dict(overlays=['contracts/snappy_comp.ovl'], harness='harness/C10/snappy.c')
 SPEC = 'specs/snappy_spec.h: element/preamble parser written from the Snappy format description'
 
 JOBS = [
     dict(name='c09_snappy_write_varint', prop='C09', entry='h_c09_write_varint', enforce='snappy_write_varint',
-         unwindset=['snappy_write_varint.0:6'], wip=True, **SC9),
+         unwindset=['snappy_write_varint.0:6'], wip=False, **SC9),
     dict(name='c09_snappy_emit_literal', prop='C09', entry='h_c09_emit_literal', enforce='snappy_emit_literal',
-         wip=True, **SC9),
+         wip=False, **SC9),
+    # exact-cost contract of the chunk-splitting loop: MiniSat does not finish in 10 min, CaDiCaL needs ~5 min
     dict(name='c09_snappy_emit_copy', prop='C09', entry='h_c09_emit_copy', enforce='snappy_emit_copy',
-         min_loop_obligations=1, timeout=150, wip=True, **SC9),
+         min_loop_obligations=1, backend='cadical', tier='thorough', timeout=1500, est_s=400, wip=True,
+         replayer=dict(kind='direct', harness='replay/direct/snappy_emit.c', sources=[], vars={'offset': 'offset', 'len': 'len'}),
+         **SC9),
     dict(name='c09_snappy_bound', prop='C09', entry='h_c09_bound', enforce='carquet_snappy_compress_bound',
-         wip=True, **SC9),
+         wip=False, **SC9),
     dict(name='c09_snappy_bound_lemma', prop='C09', entry='h_c09_bound_lemma', loop_contracts=False,
-         functions=['carquet_snappy_compress_bound'], wip=True, **SC9),
+         functions=['carquet_snappy_compress_bound'], wip=False, **SC9),
     dict(name='c09_snappy_compress', props=['C09', 'C10'], entry='h_c09_compress', enforce='carquet_snappy_compress',
          replace=['carquet_snappy_compress_bound', 'snappy_write_varint', 'snappy_emit_literal', 'snappy_emit_copy'],
-         min_loop_obligations=2, est_s=120, wip=True, **SC9),
+         min_loop_obligations=2, est_s=900, timeout=1500, tier='thorough', wip=True,
+         replayer=dict(kind='fuzz', harness='replay/fz/snappy_compress.c', sources=['src/compression/snappy.c'], max_len=64, secs=20),
+         defines=['CQV_OWN_MEM=1'], extra_sources=[], trusted=[OWNMEM], **SC9),
+    # same contract plus the obligation that the length preamble can represent src_size
+    dict(name='c09_snappy_compress_len32', props=['C09', 'C10'], entry='h_c09_compress', enforce='carquet_snappy_compress',
+         replace=['carquet_snappy_compress_bound', 'snappy_write_varint', 'snappy_emit_literal', 'snappy_emit_copy'],
+         min_loop_obligations=2, est_s=900, timeout=2400, tier='thorough', wip=True,
+         note='FINDING: src_size >= 2^32 is accepted, (uint32_t)src_size is written as the preamble, CARQUET_OK is returned; '
+              'the stream does not round-trip (native demo /tmp/snappyc/snappy_4g.c)',
+         extra_sources=[], trusted=[OWNMEM], **dict(SC9, defines=['CQV_LEN32=1', 'CQV_OWN_MEM=1'])),
     dict(name='c10_snappy_varint', prop='C10', entry='h_c10_varint', loop_contracts=False, unwind=6,
-         functions=['snappy_write_varint'], trusted=[SPEC], wip=True, **SC10),
+         functions=['snappy_write_varint'], trusted=[SPEC], wip=False, **SC10),
     dict(name='c10_snappy_emit_literal', prop='C10', entry='h_c10_emit_literal', loop_contracts=False,
-         functions=['snappy_emit_literal'], trusted=[SPEC], wip=True, **SC10),
+         functions=['snappy_emit_literal'], trusted=[SPEC], wip=False, **SC10),
     dict(name='c10_snappy_emit_copy', prop='C10', entry='h_c10_emit_copy', enforce='snappy_emit_copy',
-         min_loop_obligations=1, trusted=[SPEC], wip=True, **SC10),
+         min_loop_obligations=1, trusted=[SPEC], backend='cadical', tier='thorough', timeout=1500, est_s=400, wip=True,
+         replayer=dict(kind='direct', harness='replay/direct/snappy_emit.c', sources=[], vars={'offset': 'offset', 'len': 'len'}),
+         **SC10),
+]
+
+ZL = 'stubs/zlib_stubs.c: zlib inflate*/deflate*/compressBound as assumed contracts (<= avail_in consumed, <= avail_out written, Z_STREAM_END under deflate only when all input consumed)'
+ZS = 'stubs/zstd_stubs.c: libzstd one-shot functions as assumed contracts (result is an error code or <= dstCapacity), ZSTD_maxCLevel() == 22'
+GZ = dict(overlays=['contracts/gzip.ovl'], harness='harness/C08/zwrap.c', defines=['CQV_ZWRAP=1'], loop_contracts=False,
+          extra_sources=['stubs/mem_stubs.c', 'stubs/zlib_stubs.c'], trusted=[ZL])
+ZST = dict(overlays=['contracts/zstd.ovl'], harness='harness/C08/zwrap.c', defines=['CQV_ZWRAP=2'], loop_contracts=False,
+           extra_sources=['stubs/mem_stubs.c', 'stubs/zstd_stubs.c'], trusted=[ZS])
+JOBS += [
+    dict(name='c08_gzip_decompress', props=['C08', 'C09'], entry='h_gzip_decompress', enforce='carquet_gzip_decompress', wip=False, **GZ),
+    dict(name='c09_gzip_compress', prop='C09', entry='h_gzip_compress', enforce='carquet_gzip_compress', wip=False, **GZ),
+    dict(name='c09_gzip_compress_whole_input', prop='C09', entry='h_gzip_compress', enforce='carquet_gzip_compress', wip=True,
+         note='FINDING: (uInt)src_size / (uInt)dst_capacity truncation, sizes >= 2^32 compress only a prefix and report OK',
+         **dict(GZ, defines=['CQV_ZWRAP=1', 'CQV_WHOLE_INPUT=1'])),
+    dict(name='c09_gzip_decompress_whole_input', prop='C09', entry='h_gzip_decompress', enforce='carquet_gzip_decompress', wip=True,
+         note='FINDING: (uInt)src_size / (uInt)dst_capacity truncation in carquet_gzip_decompress for sizes >= 2^32',
+         **dict(GZ, defines=['CQV_ZWRAP=1', 'CQV_WHOLE_INPUT=1'])),
+    dict(name='c09_gzip_bound', prop='C09', entry='h_gzip_bound', enforce='carquet_gzip_compress_bound', wip=False, **GZ),
+    dict(name='c08_zstd_decompress', props=['C08', 'C09'], entry='h_zstd_decompress', enforce='carquet_zstd_decompress', wip=False, **ZST),
+    dict(name='c09_zstd_compress', prop='C09', entry='h_zstd_compress', enforce='carquet_zstd_compress', wip=False, **ZST),
 ]
